@@ -67,8 +67,9 @@ def _prepq(ifm_kind, is_fc, bias64, explicit, away, ifm_scale, wscales, ofm_scal
     return "wl_prepq " + " ".join(map(str, toks))
 
 
-def prepq_line_graph(wc, op, scale_tens):
-    """from the operator of the optimised graph, read exactly as _prepare_scale_and_bias reads it"""
+def prepq_line_graph(wc, op, scale_tens, result_scale=None):
+    """from the operator of the optimised graph, read exactly as _prepare_scale_and_bias reads it; `result_scale`: see
+    fused_result_scale"""
     from ethosu.vela.data_type import DataType
     from ethosu.vela.operation import Op, RoundingMode
 
@@ -79,7 +80,7 @@ def prepq_line_graph(wc, op, scale_tens):
     kind = {DataType.uint8: "uint8", DataType.int8: "int8", DataType.int16: "int16"}.get(first.inputs[0].dtype, "other")
     return _prepq(kind, first.original_type == Op.FullyConnected, scale_tens.dtype == DataType.int64, op.explicit_scaling,
                   first.rounding_mode == RoundingMode.AwayZero, wc._get_input_quantization(first).scale_f32, wsc,
-                  wc._get_output_quantization(first).scale_f32, len(scale_tens.values))
+                  wc._get_output_quantization(first).scale_f32 if result_scale is None else result_scale, len(scale_tens.values))
 
 
 SRC_KINDS = {"CONV_2D": (0, 1, 2), "DEPTHWISE_CONV_2D": (0, 1, 2), "FULLY_CONNECTED": (0, 1, 2), "TRANSPOSE_CONV": (2, 1, 3)}
@@ -105,11 +106,65 @@ def source_ops(net):
     return out
 
 
-def prepq_line_source(src):
-    """from the source file: IFM / filter / OFM scales as float32, bias values of the operator's own bias tensor"""
+def prepq_line_source(src, result_scale=None):
+    """from the source file: IFM / filter / OFM scales as float32, bias values of the operator's own bias tensor;
+    `result_scale`: see fused_result_scale"""
     o, x, w, b, y = src
     return _prepq(x.dtype, o.kind == "FULLY_CONNECTED", b.dtype == "int64", None, False, np.float32(x.scales[0]),
-                  [np.float32(s) for s in w.scales], np.float32(y.scales[0]), int(np.prod(b.shape)))
+                  [np.float32(s) for s in w.scales], np.float32(y.scales[0] if result_scale is None else result_scale), int(np.prod(b.shape)))
+
+
+def fused_result_scale(cmd, net=None):
+    """The tensor an emitted operation writes is not always the primary operator's own output: later operators of the
+    same pass (RELU-class clamps, which only limit the range) are fused, and the tensor in memory is THEIR output, which
+    the consumer interprets with ITS quantisation.  The accumulator therefore has to be scaled by s_ifm * s_w / s_result;
+    returns s_result (np.float32) — from the source file when the tensor exists there, else from the optimised graph —
+    or None when the operation writes the primary operator's own output (or something else than clamps is fused)."""
+    ps = cmd.ps
+    pop, res = ps.primary_op, cmd.ofm_tensor
+    if pop is None or res is None or res is pop.ofm or pop not in ps.ops:
+        return None
+    later = ps.ops[ps.ops.index(pop) + 1:]
+    if not later or not all(o.type.is_relu_op() for o in later) or later[-1].ofm is not res:
+        return None
+    if pop.forced_output_quantization is not None or res.quantization is None or res.quantization.scale_f32 is None:
+        return None
+    if net is not None:
+        for t in net.tensors:
+            if t.name == res.name and t.scales:
+                return np.float32(t.scales[0])
+    sc = np.asarray(res.quantization.scale_f32)
+    return np.float32(sc.reshape(-1)[0]) if sc.size == 1 else None
+
+
+# weighted sub-kinds of the near_scale family first: the scale records of their operations are judged at register level
+NEAR_KINDS = (0, 5, 7, 4, 11, 14, 2, 3, 1, 6, 10)
+
+
+def near_scale_jobs(netgen, seed, thorough, net_replay):
+    """[(name, net, options)]: networks of the `near_scale` family (harness/gen_nearscale.py) for the register-level stage"""
+    import random
+
+    import gen_nearscale
+
+    nk = len(gen_nearscale.KINDS)
+    n = 66 if thorough else 14
+    accs = ["ethos-u55-128", "ethos-u65-512", "ethos-u55-64", "ethos-u65-256", "ethos-u55-256"]
+    out = []
+    for j in range(n):
+        variant = NEAR_KINDS[j % len(NEAR_KINDS)] + nk * (j // len(NEAR_KINDS) + (seed % 13))
+        name = f"ns_{j}"
+        rs = seed
+        if net_replay:
+            if net_replay[0][0]["network"].split("@")[0] != name:
+                continue
+            rs = net_replay[0][1]
+            variant = NEAR_KINDS[j % len(NEAR_KINDS)] + nk * (j // len(NEAR_KINDS) + (rs % 13))
+        r = random.Random(rs * 15485863 + j)
+        # every fourth network is the control (bit-identical scales: the clamp IS fused and the result tensor's scale is used)
+        net = gen_nearscale.near_scale(r, j, variant, steps=0 if j % 4 == 3 else None)
+        out.append((name, net, ["--accelerator-config", accs[j % len(accs)], "--optimise", "Performance" if j % 3 else "Size"]))
+    return out
 
 
 def match_custom_ops(pipeline, model, streams):
